@@ -60,15 +60,16 @@ def h_expmv_numeric(V, sym, seed, hermitian, cplx):
         ref = scipy.linalg.expm(t * M) @ v0
         for normalize in (False, True):
             for ncv in (3, 10):
+                above = ':ncv-above-the-sector-dimension' if ncv > len(idx) else ''
                 try:
                     signal.alarm(120)                   # a livelock of the step-size controller must not hang the check
                     out, info = expmv(f, v, t, tol=1e-12, ncv=ncv, hermitian=hermitian, normalize=normalize, return_info=True)
                 except _Timeout:
-                    V.check('expmv-terminates-(120-s-limit)', False)
+                    V.check(f'expmv-terminates-(120-s-limit){above}', False)
                     continue
                 finally:
                     signal.alarm(0)
-                V.check('expmv-terminates-(120-s-limit)', True)
+                V.check(f'expmv-terminates-(120-s-limit){above}', True)
                 got = vec(out)
                 want = ref / np.linalg.norm(ref) if normalize else ref
                 scale = max(1.0, float(np.linalg.norm(want)))
@@ -90,16 +91,17 @@ def h_eigs_numeric(V, sym, seed, hermitian, cplx):
     for which in ('SR', 'LR', 'LM', 'SM'):
         for k in (1, 2):
             # Krylov space spans the sector: exact pairs, selected and ordered as `which` says
-            vals, vecs = eigs(f, v, k=k, which=which, ncv=dim + 2, hermitian=hermitian)
-            want = sorted(ev, key=keyf[which])[:k]
-            okv = len(vals) == k and all(abs(keyf[which](complex(a)) - keyf[which](complex(w))) <= 1e-7 for a, w in zip(vals, want))
-            V.check(f'eigs({which})-full-Krylov-space-returns-the-extremal-eigenvalues-in-order', bool(okv))
-            okr = True
-            for a, y in zip(vals, vecs):
-                yv = vec(y)
-                okr = okr and abs(np.linalg.norm(yv) - 1) <= 1e-8 and np.linalg.norm(M @ yv - complex(a) * yv) <= 1e-6 \
-                    and np.linalg.norm(np.delete(yv, idx)) <= 1e-12 and tuple(y.n) == tuple(v.n)
-            V.check('eigs-full-Krylov-space-returns-normalised-eigenvectors-in-the-sector', bool(okr))
+            for label, ncv in (('Krylov-space-of-the-sector-dimension', dim), ('ncv-above-the-sector-dimension', dim + 2)):
+                vals, vecs = eigs(f, v, k=k, which=which, ncv=ncv, hermitian=hermitian)
+                want = sorted(ev, key=keyf[which])[:k]
+                okv = len(vals) == k and all(abs(keyf[which](complex(a)) - keyf[which](complex(w))) <= 1e-7 for a, w in zip(vals, want))
+                V.check(f'eigs:{label}:extremal-eigenvalues-in-the-order-`which`-says', bool(okv))
+                okr = True
+                for a, y in zip(vals, vecs):
+                    yv = vec(y)
+                    okr = okr and abs(np.linalg.norm(yv) - 1) <= 1e-8 and np.linalg.norm(M @ yv - complex(a) * yv) <= 1e-6 \
+                        and np.linalg.norm(np.delete(yv, idx)) <= 1e-12 and tuple(y.n) == tuple(v.n)
+                V.check(f'eigs:{label}:normalised-eigenvectors-in-the-sector', bool(okr))
         if hermitian and dim > 4:
             vals, vecs = eigs(f, v, k=1, which=which, ncv=3, hermitian=True)
             yv = vec(vecs[0])
